@@ -1,8 +1,9 @@
 --------------------------------- MODULE Src ---------------------------------
 (* The C abstract machine for the abstract programs of harness/absprog.py,    *)
 (* written from ISO C (C11 clause numbers in the comments), independent of    *)
-(* ppci.  Data model: char types 8 bits, short 16, int 32, long long 64       *)
-(* (the model of ppci's x86_64 target); two's complement representation.      *)
+(* ppci.  Data model LP64: char types 8 bits, short 16, int 32, long 64,      *)
+(* long long 64 (ppci's x86_64 target); two's complement representation.      *)
+(* Type names: c8 u8 i16 u16 i32 u32 il ul (long, unsigned long) i64 u64.     *)
 (*                                                                           *)
 (* A *case* is [id, prog, fn, argv : Seq(Seq(word)), ext : Seq([name, rets]), *)
 (*             fuel].  The machine runs prog.fn(argv[av]) and yields          *)
@@ -43,14 +44,15 @@ VARIABLES chunk,   \* fan-out helper (0 = not chosen yet)
 vars == <<chunk, i, av, stack, glob, calls, status, why, ret, steps>>
 
 (* ======================= types (6.2.5, 6.3.1.1) ============================ *)
-IntTypes == {"c8", "u8", "i16", "u16", "i32", "u32", "i64", "u64"}
+IntTypes == {"c8", "u8", "i16", "u16", "i32", "u32", "il", "ul", "i64", "u64"}
 Size(t) == CASE t \in {"c8", "u8"} -> 1 [] t \in {"i16", "u16"} -> 2
-             [] t \in {"i32", "u32"} -> 4 [] t \in {"i64", "u64"} -> 8 [] OTHER -> 0
-IsSigned(t) == t \in {"c8", "i16", "i32", "i64"}
-\* conversion rank (6.3.1.1p1): signed char < short < int < long long; unsigned = corresponding signed
+             [] t \in {"i32", "u32"} -> 4 [] t \in {"il", "ul", "i64", "u64"} -> 8 [] OTHER -> 0
+IsSigned(t) == t \in {"c8", "i16", "i32", "il", "i64"}
+\* conversion rank (6.3.1.1p1): signed char < short < int < long < long long; unsigned = corresponding signed
 Rank(t) == CASE t \in {"c8", "u8"} -> 1 [] t \in {"i16", "u16"} -> 2
-             [] t \in {"i32", "u32"} -> 3 [] t \in {"i64", "u64"} -> 5 [] OTHER -> 0
-UnsignedOf(t) == CASE t = "c8" -> "u8" [] t = "i16" -> "u16" [] t = "i32" -> "u32" [] t = "i64" -> "u64" [] OTHER -> t
+             [] t \in {"i32", "u32"} -> 3 [] t \in {"il", "ul"} -> 4 [] t \in {"i64", "u64"} -> 5 [] OTHER -> 0
+UnsignedOf(t) == CASE t = "c8" -> "u8" [] t = "i16" -> "u16" [] t = "i32" -> "u32" [] t = "il" -> "ul"
+                   [] t = "i64" -> "u64" [] OTHER -> t
 \* integer promotions (6.3.1.1p2): int can represent all values of every type of lower rank here
 Promote(t) == IF Rank(t) < 3 THEN "i32" ELSE t
 \* usual arithmetic conversions (6.3.1.8), integer part
@@ -62,7 +64,7 @@ UAC(t1, t2) ==
              s == IF IsSigned(a) THEN a ELSE b
          IN IF Rank(u) >= Rank(s) THEN u
             ELSE IF Size(s) > Size(u) THEN s        \* the signed type represents all values of the unsigned one
-            ELSE UnsignedOf(s)
+            ELSE UnsignedOf(s)                      \* e.g. long long with unsigned long: unsigned long long
 
 (* ======================= values and results ================================ *)
 IV(t, w) == [ty |-> t, w |-> w]                                  \* integer value
@@ -74,7 +76,7 @@ OneV == IV("i32", WOne(4))
 \* objects (what variables hold)
 Scal(t, w) == [k |-> "s", ty |-> t, w |-> w]
 Arr(t, el) == [k |-> "a", ty |-> t, el |-> el]
-Str(fl) == [k |-> "st", fl |-> fl]                               \* fl : Seq([f, ty, w])
+Str(fl) == [k |-> "st", fl |-> fl]                               \* fl : Seq([f, ty, off, w])
 PtrO(t, g, off) == [k |-> "p", ty |-> t, g |-> g, off |-> off]
 NoObj == [k |-> "none"]
 
@@ -182,13 +184,15 @@ BaseOp(op) == CASE op = "+=" -> "+" [] op = "-=" -> "-" [] op = "*=" -> "*" [] o
 
 (* ======================= literals (6.4.4.1) ================================= *)
 \* a literal carries its value as an 8-byte word and the type named by its suffix
-\* (none / u / ll / ull as i32 / u32 / i64 / u64); narrower types are written as a cast of an int literal
-LitBase(e) == IF e.ty \in {"i32", "u32", "i64", "u64"} THEN e.ty ELSE "i32"
+\* (none / u / l / ul / ll / ull as i32 / u32 / il / ul / i64 / u64); narrower types are written as a cast of an int literal
+LitBase(e) == IF e.ty \in {"i32", "u32", "il", "ul", "i64", "u64"} THEN e.ty ELSE "i32"
 LitFits(w8, n, sgn) == (\A j \in (n + 1)..8 : w8[j] = 0) /\ (sgn => w8[n] < 128)
 LitType0(e) ==            \* decimal constants: first type of the list in which the value fits
     LET b == LitBase(e) IN
-    CASE b = "i32" -> IF LitFits(e.w, 4, TRUE) THEN "i32" ELSE IF LitFits(e.w, 8, TRUE) THEN "i64" ELSE "none"
-      [] b = "u32" -> IF LitFits(e.w, 4, FALSE) THEN "u32" ELSE "u64"
+    CASE b = "i32" -> IF LitFits(e.w, 4, TRUE) THEN "i32" ELSE IF LitFits(e.w, 8, TRUE) THEN "il" ELSE "none"     \* int, long, long long
+      [] b = "u32" -> IF LitFits(e.w, 4, FALSE) THEN "u32" ELSE "ul"                 \* unsigned int, unsigned long, ...
+      [] b = "il" -> IF LitFits(e.w, 8, TRUE) THEN "il" ELSE "none"
+      [] b = "ul" -> "ul"
       [] b = "i64" -> IF LitFits(e.w, 8, TRUE) THEN "i64" ELSE "none"
       [] b = "u64" -> "u64"
 LitType(e) == IF LitBase(e) = e.ty THEN LitType0(e) ELSE e.ty
@@ -411,19 +415,39 @@ InitElems(t, n, init, j, acc) ==
     ELSE IF j > Len(init) THEN InitElems(t, n, init, j + 1, Append(acc, WZero(Size(t))))
     ELSE LET c == InitConv(init[j], t) IN
          IF c.st # "ok" THEN c ELSE InitElems(t, n, init, j + 1, Append(acc, c.v.w))
+\* layout (6.7.2.1p15, System V ABI): every member is aligned to its size, an anonymous struct member (p13) to the
+\* largest alignment of its members, and its size is padded to a multiple of that alignment; the bytes in
+\* between are padding.  Members of an anonymous struct count as members of the enclosing struct.
+AlignUp(a, al) == IF al <= 1 THEN a ELSE ((a + al - 1) \div al) * al
+RECURSIVE MaxAlign(_, _, _)
+MaxAlign(ms, j, m) == IF j > Len(ms) THEN m
+                      ELSE LET a == IF ms[j].anon THEN MaxAlign(ms[j].sub, 1, 1) ELSE Size(ms[j].ty) IN
+                           MaxAlign(ms, j + 1, IF a > m THEN a ELSE m)
+RECURSIVE LayoutFields(_, _, _, _)
+LayoutFields(ms, j, cur, acc) ==          \* [fl : Seq([f, ty, off]) in declaration order, end : first free offset]
+    IF j > Len(ms) THEN [fl |-> acc, end |-> cur]
+    ELSE IF ms[j].anon
+    THEN LET al == MaxAlign(ms[j].sub, 1, 1)
+             a == AlignUp(cur, al)
+             inner == LayoutFields(ms[j].sub, 1, a, acc)
+         IN LayoutFields(ms, j + 1, a + AlignUp(inner.end - a, al), inner.fl)
+    ELSE LET a == AlignUp(cur, Size(ms[j].ty)) IN
+         LayoutFields(ms, j + 1, a + Size(ms[j].ty), Append(acc, [f |-> ms[j].f, ty |-> ms[j].ty, off |-> a]))
 RECURSIVE InitFields(_, _, _, _)
 InitFields(fl, init, j, acc) ==
     IF j > Len(fl) THEN [st |-> "ok", fl |-> acc]
     ELSE LET c == IF j > Len(init) THEN OkV(IV(fl[j].ty, WZero(Size(fl[j].ty)))) ELSE InitConv(init[j], fl[j].ty) IN
-         IF c.st # "ok" THEN c ELSE InitFields(fl, init, j + 1, Append(acc, [f |-> fl[j].f, ty |-> fl[j].ty, w |-> c.v.w]))
+         IF c.st # "ok" THEN c
+         ELSE InitFields(fl, init, j + 1, Append(acc, [f |-> fl[j].f, ty |-> fl[j].ty, off |-> fl[j].off, w |-> c.v.w]))
 InitObj(g) ==
     CASE g.gk = "s" -> LET c == IF Len(g.init) = 0 THEN OkV(IV(g.ty, WZero(Size(g.ty)))) ELSE InitConv(g.init[1], g.ty) IN
                        IF c.st # "ok" THEN c ELSE [st |-> "ok", o |-> Scal(g.ty, c.v.w)]
       [] g.gk = "a" -> IF Len(g.init) > g.len THEN Bad("stuck", "too many initialisers")
                        ELSE LET r == InitElems(g.ty, g.len, g.init, 1, <<>>) IN
                             IF r.st # "ok" THEN r ELSE [st |-> "ok", o |-> Arr(g.ty, r.el)]
-      [] g.gk = "st" -> IF Len(g.init) > Len(g.struct) THEN Bad("stuck", "too many initialisers")
-                        ELSE LET r == InitFields(g.struct, g.init, 1, <<>>) IN
+      [] g.gk = "st" -> LET lay == LayoutFields(g.struct, 1, 0, <<>>) IN
+                        IF Len(g.init) > Len(lay.fl) THEN Bad("stuck", "too many initialisers")
+                        ELSE LET r == InitFields(lay.fl, g.init, 1, <<>>) IN
                              IF r.st # "ok" THEN r ELSE [st |-> "ok", o |-> Str(r.fl)]
       [] OTHER -> Bad("stuck", "unknown global kind")
 RECURSIVE InitGlobals(_, _, _)
@@ -432,18 +456,15 @@ InitGlobals(G, k, acc) ==
     ELSE LET r == InitObj(G[k]) IN
          IF r.st # "ok" THEN r ELSE InitGlobals(G, k + 1, (G[k].n :> r.o) @@ acc)
 
-\* natural alignment: every member is aligned to its size; the bytes in between are padding (6.7.2.1p15)
-AlignUp(a, al) == IF al <= 1 THEN a ELSE ((a + al - 1) \div al) * al
 RECURSIVE Flat(_, _)
 Flat(el, j) == IF j > Len(el) THEN <<>> ELSE el[j] \o Flat(el, j + 1)
-RECURSIVE StructObs(_, _, _, _)
-StructObs(n, fl, j, cur) ==
+RECURSIVE StructObs(_, _, _)
+StructObs(n, fl, j) ==
     IF j > Len(fl) THEN <<>>
-    ELSE LET a == AlignUp(cur, Size(fl[j].ty)) IN
-         <<[name |-> n, off |-> a, bytes |-> fl[j].w]>> \o StructObs(n, fl, j + 1, a + Size(fl[j].ty))
+    ELSE <<[name |-> n, off |-> fl[j].off, bytes |-> fl[j].w]>> \o StructObs(n, fl, j + 1)
 ObjObs(n, o) == CASE o.k = "s" -> <<[name |-> n, off |-> 0, bytes |-> o.w]>>
                   [] o.k = "a" -> <<[name |-> n, off |-> 0, bytes |-> Flat(o.el, 1)]>>
-                  [] o.k = "st" -> StructObs(n, o.fl, 1, 0)
+                  [] o.k = "st" -> StructObs(n, o.fl, 1)
 RECURSIVE GlobObs(_, _, _)
 GlobObs(G, k, gl) == IF k > Len(G) THEN <<>> ELSE ObjObs(G[k].n, gl[G[k].n]) \o GlobObs(G, k + 1, gl)
 
